@@ -331,17 +331,18 @@ def queue_append_only(cx, run, rule, qs):
     run.floor(rule, n, 2, "direct queue mutations")
 
 
-def accepted_is_queued(cx, run, rule, qs):
+def accepted_is_queued(cx, run, rule, qs, entries=None, floor=6):
     """Every accepted frame is accounted: on every path through a frame-writing entry that ends in a success exit, exactly the thing
     that makes the frame exist later happened - a push onto the track's sample queue, directly or through a callee of which the same
     holds (must-pass-through on the CFG, fixpoint over the local call graph).  `Ok` without queuing is a frame the caller was told was
     accepted and that neither the file nor the statistics contain."""
     an, u, g = cx.an, cx.u, cx.g
     vq, aq = qs
+    entry_set = set(entries) if entries is not None else None
     push_blocks = {}
     for p in cx.live:
         for (bb, i, (root, path), why, node) in cx.st.sites[p]:
-            if why == "extcall std::vec::Vec::push" and len(path) == 1 and path[0] in (vq, aq):
+            if why == "extcall std::vec::Vec::push" and len(path) == 1 and path[0] in (vq, aq) and (entry_set is None or p in entry_set or cx.live[p].get("impl_self", "") == cx.live[next(iter(entry_set))].get("impl_self", "")):
                 push_blocks.setdefault(p, set()).add(bb)
     cands = {p for p in cx.live if (g.reach([p]) & set(push_blocks)) and cx.live[p]["locals"][0]["ty"].startswith("std::result::Result<")}
     queuer = set(cands)
@@ -369,7 +370,8 @@ def accepted_is_queued(cx, run, rule, qs):
             if violations(p):
                 queuer.discard(p)
                 changed = True
-    entries = [p for p in API_WRITE_ENTRIES if p in cx.live] + sorted(p for p in push_blocks)
+    if entries is None:
+        entries = [p for p in API_WRITE_ENTRIES if p in cx.live] + sorted(p for p in push_blocks)
     n = 0
     for p in entries:
         n += 1
@@ -377,7 +379,7 @@ def accepted_is_queued(cx, run, rule, qs):
         run.check(p in queuer, rule, "accepted => queued %s" % mir.norm(p), "every success exit lies behind a push onto the sample queue (directly or through a callee that guarantees it)",
                   "%s can return success without the frame having been pushed onto a sample queue (success exit in bb %s reachable around every queuing call): the caller is told the frame was accepted, but the file and the statistics will not contain it"
                   % (mir.norm(p), ", ".join(str(e["bb"]) for e in v[:3])), mir.loc_of(v[0]["node"]) if v else mir.loc_of(u.bodies[p]))
-    run.floor(rule, n, 6, "frame-writing entries checked for accepted => queued")
+    run.floor(rule, n, floor, "frame-writing entries checked for accepted => queued")
 
 
 def r5(cx, run):
